@@ -81,3 +81,46 @@ Theorem C02_ack_persist_refuted :
                                        | None => false end) (trace 4 (init 2) sc) = true.
 Proof. exact ack_persist_refuted. Qed.
 Print Assumptions C02_ack_persist_refuted.
+
+(* ---------------------------------------------------------------------- *)
+(* Journaling store (single writer, ChunkJournal.Update as the manifest step). *)
+Theorem C02_j_never_stale :
+  forall sc ev, In ev (jtrace jinit sc) -> je_res ev <> RNone.
+Proof. exact j_never_stale. Qed.
+Print Assumptions C02_j_never_stale.
+
+Theorem C02_j_failure_changes_nothing :
+  forall sc ev, In ev (jtrace jinit sc) -> jcommit_ok ev = false ->
+  j_root (je_after ev) = j_root (je_before ev) /\ j_spec (je_after ev) = j_spec (je_before ev).
+Proof. exact j_failure_changes_nothing. Qed.
+Print Assumptions C02_j_failure_changes_nothing.
+
+(* full CAS is false for the journaling store too (shortcut ignores last): Commit(3,3) on a fresh store answers true *)
+Theorem C02_j_commit_is_cas_refuted : exists sc, existsb jcas_viol_b (jtrace jinit sc) = true.
+Proof. exact j_commit_is_cas_refuted. Qed.
+Print Assumptions C02_j_commit_is_cas_refuted.
+
+Theorem C02_j_commit_is_cas_partial :
+  forall sc ev, In ev (jtrace jinit sc) -> jcommit_ok ev = true ->
+  exists cur last, jcommit_args ev = Some (cur, last) /\
+    ((jswapped ev = true /\ j_root (je_before ev) = last /\ j_root (je_after ev) = cur
+      /\ forall x, In x (j_puts (je_before ev)) -> jfresh_has (je_after ev) x = true)
+     \/ (jswapped ev = false /\ cur = last /\ jany_novel (je_before ev) = false
+         /\ j_root (je_after ev) = j_root (je_before ev) /\ j_spec (je_after ev) = j_spec (je_before ev))).
+Proof. exact j_commit_is_cas_partial. Qed.
+Print Assumptions C02_j_commit_is_cas_partial.
+
+Theorem C02_j_root_history_linear :
+  forall sc s, JInv s -> linked (j_root s) (jswaps (jtrace s sc)) (j_root (jfinal s sc)).
+Proof. exact j_root_history_linear. Qed.
+Print Assumptions C02_j_root_history_linear.
+
+Theorem C02_j_ack_persist :
+  forall sc1 cur last s2 sc2,
+  jstep_fn (jfinal jinit sc1) (JCommit cur last) = (s2, ROk) ->
+  jswapped {| je_step := JCommit cur last; je_res := ROk; je_before := jfinal jinit sc1; je_after := s2 |} = true ->
+  let s3 := jfinal s2 sc2 in
+  (forall x, In x (j_puts (jfinal jinit sc1)) -> jfresh_has s3 x = true)
+  /\ linked cur (jswaps (jtrace s2 sc2)) (j_root s3).
+Proof. exact j_ack_persist. Qed.
+Print Assumptions C02_j_ack_persist.
